@@ -10,6 +10,7 @@ import calendar
 import glob
 import os
 import re
+import shutil
 import time
 
 import numpy as np
@@ -188,7 +189,8 @@ def gen_spec(rng, cfgi, idx):
             "cont": cont, "dirs": dirs, "order": order, "name": "cfg%d-%d" % (cfgi, idx),
             # compression / checksum change nothing a reader may observe; in continuous mode they make the
             # writer keep one index row per block instead of filling the skipped slots
-            "comp": rng.choice([0, 0, 0, 1, 6]), "cksum": rng.random() < 0.25}
+            "comp": rng.choice([0, 0, 0, 1, 6]), "cksum": rng.random() < 0.25,
+            "leftover": rng.random() < 0.3}
 
 
 def write_channel(spec):
@@ -222,6 +224,16 @@ def write_channel(spec):
                 arr = t.astype(spec["dtype"])
             w.rf_write(arr, off - first)
         w.close()
+        if spec.get("leftover"):
+            # what a recorder killed between closing a file and renaming it leaves behind: a complete HDF5 file
+            # under a tmp. name, one file period after (and one before) everything recorded.  Readers ignore it
+            fl = sorted(glob.glob(os.path.join(chdir, "*", "rf@*.h5")))
+            if fl:
+                for src_f, dms in ((fl[-1], spec["fc"]), (fl[0], -spec["fc"])):
+                    m = re.match(r"rf@(\d+)\.(\d+)\.h5$", os.path.basename(src_f))
+                    ms = int(m.group(1)) * 1000 + int(m.group(2)) + dms
+                    if ms >= 0:
+                        shutil.copyfile(src_f, os.path.join(os.path.dirname(src_f), "tmp.rf@%d.%03d.h5" % (ms // 1000, ms % 1000)))
     return [tops[i] for i in spec["order"]]
 
 
@@ -488,7 +500,7 @@ def oracle(res, spec, impl, queries, kinds, dirs, splits):
     nsub = spec["nsub"]
     n, d, fc = spec["n"], spec["d"], spec["fc"]
     ident = {k: spec[k] for k in ("n", "d", "fc", "sc", "k0", "dtype", "cplx", "nsub", "cont", "dirs", "order")}
-    ident.update(comp=spec.get("comp", 0), cksum=bool(spec.get("cksum", False)))
+    ident.update(comp=spec.get("comp", 0), cksum=bool(spec.get("cksum", False)), leftover=bool(spec.get("leftover", False)))
     file_firsts = {slot_lo(f["ms"], n, d) for files in dirs for f in files}
     for q in queries:
         if q[0] == 1 and q[3] < 0:
